@@ -84,6 +84,8 @@ func (s scen) name() string {
 		n += " supplied-by-Add"
 	case 's':
 		n += " supplied-by-constructor+Add"
+	case '2', '3':
+		n += fmt.Sprintf(" supplied-by-%c-concurrent-Adds", s.supply)
 	}
 	if s.closerMgr {
 		n += fmt.Sprintf(" closers=%q grace=%c close=%c", s.closers, s.grace, s.close)
@@ -383,7 +385,7 @@ func mkExec(s scen) *mc.Exec {
 		}
 		ctorFns, addFns := fns, []concurrency.Runner(nil)
 		switch s.supply {
-		case 'a':
+		case 'a', '2', '3':
 			ctorFns, addFns = nil, fns
 		case 's':
 			// separate backing arrays: NewRunnerManager keeps the caller's slice
@@ -446,7 +448,28 @@ func mkExec(s scen) *mc.Exec {
 		} else {
 			m = concurrency.NewRunnerManager(ctorFns...)
 		}
-		if len(addFns) > 0 {
+		if k := int(s.supply - '0'); k == 2 || k == 3 {
+			// k threads call Add at the same time (runner i goes to thread i%k);
+			// Run is called once they have all returned
+			var wg mc.WaitGroup
+			wg.Add(k)
+			for t := 0; t < k; t++ {
+				var mine []concurrency.Runner
+				for i := t; i < len(addFns); i += k {
+					mine = append(mine, addFns[i])
+				}
+				mc.GoNamed(fmt.Sprintf("adder%d", t), func() {
+					defer wg.Done()
+					if len(mine) == 0 {
+						return
+					}
+					if err := m.Add(mine...); err != nil {
+						mc.Fail("[key=Add-before-Run-refused] concurrent Add before Run returned %v", err)
+					}
+				})
+			}
+			wg.Wait()
+		} else if len(addFns) > 0 {
 			// before Run (and before any Close): must be accepted
 			if err := m.Add(addFns...); err != nil {
 				mc.Fail("[key=Add-before-Run-refused] Add before Run returned %v", err)
@@ -1156,7 +1179,7 @@ func scenarios() []hx.Scenario {
 				for _, cm := range []byte{'-', '1', 'a'} {
 					sc := base
 					sc.closerMgr, sc.closers, sc.grace, sc.close = true, cl, '-', cm
-					quick := pe == 'd' && in(t, "N", "C", "sN", "SN") && (cl == "" || t == "N") && cm != 'a'
+					quick := pe == 'd' && in(t, "N", "C", "sN", "SN") && cl == "" && (cm == '-' || (cm == '1' && t == "N"))
 					add(sc, rcm, true, 3, 4, !quick)
 				}
 			}
@@ -1176,6 +1199,21 @@ func scenarios() []hx.Scenario {
 					quick := in(t, "n", "c") && len(cl) <= 3 && !in(cl, "cc", "ed") && g == '-' && (cm == '-' || cm == '1') && (t == "n" || len(cl) == 1)
 					add(sc, rcm, true, 3, 4, !quick)
 				}
+			}
+		}
+	}
+	// G9 runners supplied by 2-3 threads calling Add at the same time before Run:
+	// every runner whose Add returned nil is started exactly once
+	for _, sup := range []byte{'2', '3'} {
+		for _, t := range []string{"nN", "NE", "nNE", "eNEW", "NNNN"} {
+			for _, par := range []bool{false, true} {
+				sc := scen{runners: t, parent: par, supply: sup}
+				if !hasTrigger(sc) {
+					continue
+				}
+				add(sc, rm, false, 2, 2, len(t) > 3 || (sup == '3' && len(t) < 3))
+				sc.closerMgr, sc.closers, sc.grace, sc.close = true, "e", '-', '1'
+				add(sc, rcm, true, 3, 4, len(t) > 2)
 			}
 		}
 	}
@@ -1223,7 +1261,7 @@ func scenarios() []hx.Scenario {
 	}
 	// the boundary families (closer error kinds, grace <= 0 / 1ns) come first
 	prio := func(n string) bool {
-		return strings.Contains(n, "parentDeadline") || strings.Contains(n, "parentCancelCause") || strings.Contains(n, "grace=0") || strings.Contains(n, "grace=m") || strings.Contains(n, "grace=1") || closerKindsRe.MatchString(n)
+		return strings.Contains(n, "concurrent-Adds") || strings.Contains(n, "parentDeadline") || strings.Contains(n, "parentCancelCause") || strings.Contains(n, "grace=0") || strings.Contains(n, "grace=m") || strings.Contains(n, "grace=1") || closerKindsRe.MatchString(n)
 	}
 	sort.SliceStable(out, func(i, j int) bool { return prio(out[i].Name) && !prio(out[j].Name) })
 	out = append([]hx.Scenario{{
